@@ -9,11 +9,13 @@ from pyvc import contract as C
 from pyvc.contract import Contract, register, lemma
 from pyvc.values import Struct, Sym, term, wrap, zand, zor, znot, zeq, Unsupported
 import contracts.c06 as c06        # noqa: F401  sort_idx_canonical (props C06, C19)
+import contracts.registry as registry        # noqa: F401  index registry (props C08, C19)
 
 ASSUMPTIONS = c06.ASSUMPTIONS + [
     "tensor names and configured base names are arbitrary strings (z3 string theory, ASCII digits for str.isnumeric); the configured base names are non empty",
-    "the index registry (Indices.get_indices / get_generic_indices / _gen_generic_idx), cached_member / cached_property / Singleton and is_t_amplitude / is_gs_density (str.replace and str.isnumeric over arbitrary strings: z3 and cvc5 both left the obligation open within 80 s, so no contract is claimed; the split_* functions they build on are under contract) are only covered by bounded stand-ins (registry.identity_and_freshness under C08, independence.hashseed_history_config)",
+    "cached_member / cached_property / Singleton and is_t_amplitude / is_gs_density (str.replace and str.isnumeric over arbitrary strings: z3 and cvc5 both left the obligation open within 80 s, so no contract is claimed; the split_* functions they build on are under contract) are only covered by bounded stand-ins (registry.identity_and_freshness under C08, independence.hashseed_history_config)",
 ]
+ASSUMPTIONS = ASSUMPTIONS + registry.ASSUMPTIONS
 TRUSTED = []
 DIGITS1 = z3.Plus(z3.Range("0", "9"))
 
